@@ -502,6 +502,13 @@ sys.stdout.write(json.dumps(out))
                 mws.append(ContextProcessor(required=sorted(names)))
                 self._ctx_required = sorted(names)
         meta = MetaApplication()
+        self._decoy = len(cfg['resources']) % 2 == 0
+        if self._decoy:
+            # round 14: the SAME MetaApplication object is first mounted in another host of the process (no secrets
+            # there) and viewed once, then in the host under test (decided by a value that exists anyway: no extra draw)
+            decoy = Application([('/', lambda: Response('decoy')), ('/m/', meta)], resources={'public_name': 'decoy-value', 'plain': 7})
+            for path in ('/m/', '/m/json/'):
+                call_app(decoy, make_environ('GET', path, headers={'Accept': 'text/html'}))
         rf_kw = {}
         if cfg['renders'] == 'pathlike':
             rf_kw['render_factory'] = lambda arg: (lambda context: Response('rendered with %s' % (arg,)))
@@ -553,6 +560,8 @@ sys.stdout.write(json.dumps(out))
                 res.probe('secret-named-resource-with-a-next-to-empty-value')
             if cfg['depth'] == 2:
                 res.probe('depth-2')
+            if self._decoy:
+                res.probe('meta-object-first-mounted-in-another-host')
             if cfg.get('exotic_defaults'):
                 res.probe('endpoint-with-unserialisable-defaults')
             if cfg.get('ctx_requires') and any('secret' in r['name'] and r['name'].replace('_', 'a').isalnum() for r in cfg['resources']):
